@@ -656,6 +656,25 @@ func judgeHostile(c *run.Ctx, label string, hs hostileSetup, input []byte, hands
 	if res.deleted != res.done1+res.done2 {
 		c.Violate("forged-progress", fmt.Sprintf("%s: %d records deleted, %d transfers completed", label, res.deleted, res.done1+res.done2), detail())
 	}
+	// whatever came in, what the client writes is well-formed, and it
+	// acknowledges nothing under the reserved identifier zero
+	dtOut := detail()
+	w.Mu.Lock()
+	for _, cn := range w.Conns {
+		pk, rest, perr := wire.ParseStream(cn.Out, true)
+		if perr != nil {
+			c.Violate("client-emits-malformed-packet", fmt.Sprintf("%s: conn %d: %v (after %d packets, %d bytes left)", label, cn.Idx, perr, len(pk), len(rest)), dtOut)
+		}
+		for _, q := range pk {
+			switch q.Type {
+			case wire.PUBACK, wire.PUBREC, wire.PUBREL, wire.PUBCOMP:
+				if q.ID == 0 {
+					c.Violate("client-emits-malformed-packet", fmt.Sprintf("%s: conn %d: %s with the reserved packet identifier zero", label, cn.Idx, wire.TypeName(q.Type)), dtOut)
+				}
+			}
+		}
+	}
+	w.Mu.Unlock()
 	if gray {
 		return false
 	}
